@@ -3,7 +3,7 @@
    (Non-vacuity examples: Tmpl/TmplFacts.v, *_nonvacuous.) *)
 From Coq Require Import List NArith ZArith Bool.
 From RPFT Require Import Base.Sexp Base.PyStr Base.Result Gen.Tables Cell.Cell Cell.CellFacts
-  Tmpl.MiniJinja Tmpl.RowLoop Tmpl.TmplFacts.
+  Tmpl.MiniJinja Tmpl.RowLoop Tmpl.TmplFacts Tmpl.Insert Tmpl.InsertFacts Tmpl.CellHistory Tmpl.CellHistoryFacts.
 Import ListNotations.
 
 (* 1a. expressions: reaching an operation that forces the Undefined object of a missing name
@@ -170,3 +170,81 @@ Print Assumptions C16_env_is_strict.
 Theorem C16_env_behaves_strict : probes_all_error = true.
 Proof. exact env_behaves_strict. Qed.
 Print Assumptions C16_env_behaves_strict.
+
+(* 6. Strengthening after wave 3 — the ROAD by which a sheet is instantiated does not matter.
+   6a. sheets inserted into sheets (insert_as_block -> get_node_group -> a new FlowParser -> parse_as_block): whatever stops
+   the inserted sheet — an unknown name in one of its evaluated cells included — stops the inserting sheet with the same
+   error, and nothing is produced after it.  The inserted sheet is arbitrary, so this holds at every depth of nesting. *)
+Theorem C16_inserted_error_is_flow_error : forall pe pn f bk inc name arg rest cx log a t bcx log1 e,
+  inst_insert pe pn cx inc arg = Ok (Some a) ->
+  find_template bk name = Some t ->
+  block_context t a = Ok bcx ->
+  run_bsheet pe pn f bk (t_sheet t) bcx log = (log1, Err e) ->
+  run_bsheet pe pn (S f) bk (SInsert inc name arg :: rest) cx log = (log1, Err e).
+Proof. exact inserted_error_is_flow_error. Qed.
+Print Assumptions C16_inserted_error_is_flow_error.
+
+(* 6b. ... and in an ordinary segment of rows: the first row that cannot be instantiated stops the sheet at once *)
+Theorem C16_row_error_is_flow_error : forall pe pn f bk rows rest r cx log log2 e,
+  nth_error rows 0 = Some r ->
+  inst_row_incl pe pn (Some cx) r (log ++ [EvRow 0 true]) = (log2, Err e) ->
+  run_bsheet pe pn (S f) bk (SRows rows :: rest) cx log = (log2, Err e).
+Proof.
+  exact (fun pe pn f bk rows rest r cx log log2 e Hn Hi =>
+           rows_error_is_flow_error pe pn f bk rows rest cx log log2 e (first_row_error_stops pe pn rows r cx log log2 e Hn Hi)).
+Qed.
+Print Assumptions C16_row_error_is_flow_error.
+
+(* 6c. an inserted sheet sees its declared argument and nothing of the inserting flow: two flows that hand over the same
+   argument get the same outcome from the block, whatever else they define (so a variable of the inserting flow used
+   inside the block is unknown there — one of the ways a name can be missing) *)
+Theorem C16_block_sees_only_its_argument : forall pe pn f bk inc name arg rest cx cx' log a,
+  inst_insert pe pn cx inc arg = Ok (Some a) ->
+  inst_insert pe pn cx' inc arg = Ok (Some a) ->
+  forall t bcx, find_template bk name = Some t -> block_context t a = Ok bcx ->
+  forall log1 e, run_bsheet pe pn f bk (t_sheet t) bcx log = (log1, Err e) ->
+  run_bsheet pe pn (S f) bk (SInsert inc name arg :: rest) cx log
+  = run_bsheet pe pn (S f) bk (SInsert inc name arg :: rest) cx' log.
+Proof. exact block_sees_only_its_argument. Qed.
+Print Assumptions C16_block_sees_only_its_argument.
+
+(* 6d. an insert row under a false include_if: its argument cell is not evaluated, the template not instantiated *)
+Theorem C16_excluded_insert_not_evaluated : forall pe pn f bk inc name arg rest cx log pi s,
+  parse_as_string_m pe pn (Some cx) inc = Ok pi -> to_text pn pi = Ok s ->
+  str_eqb (lower (strip s)) s_false = true ->
+  run_bsheet pe pn (S f) bk (SInsert inc name arg :: rest) cx log = run_bsheet pe pn f bk rest cx log.
+Proof.
+  exact (fun pe pn f bk inc name arg rest cx log pi s Hp Ht Hs =>
+           excluded_insert_not_evaluated pe pn f bk inc name arg rest cx log (insert_excluded_by_false pe pn cx inc arg pi s Hp Ht Hs)).
+Qed.
+Print Assumptions C16_excluded_insert_not_evaluated.
+
+Example C16_inserted_sheets_nonvacuous : insert_example.
+Proof. exact insert_example_holds. Qed.
+Print Assumptions C16_inserted_sheets_nonvacuous.
+
+(* 7. histories on one CellParser: the model's step function hands the parser state back unchanged (no memo of rendered
+   cells, no list of collected errors, no set of errors already reported), so a sequence of cells run through it yields,
+   cell by cell, the value of the pure function: an unknown name is reported EVERY time it is met — after failing calls,
+   after the same cell, after a call in which the name was defined. *)
+Theorem C16_cells_history_free : forall st cs, cp_run st cs = (st, map (cp_do st) cs).
+Proof. exact cp_run_is_map. Qed.
+Print Assumptions C16_cells_history_free.
+
+Theorem C16_error_reported_every_time : forall st h c t e,
+  cp_do st c = Err e ->
+  nth_error (snd (cp_run st (h ++ c :: t))) (length h) = Some (Err e).
+Proof. exact cp_error_every_time. Qed.
+Print Assumptions C16_error_reported_every_time.
+
+Example C16_cell_history_nonvacuous : cell_history_example.
+Proof. exact cell_history_example_holds. Qed.
+Print Assumptions C16_cell_history_nonvacuous.
+
+(* 8. the last sentence of C16 ("rows skipped through a false include_if are not evaluated at all") is FALSE of the faithful
+   model for an inclusion cell that yields a falsy object other than False: the row is excluded and evaluated all the same
+   (finding falsy-include_if-row-evaluated; candidate patch in design.d/FIX_falsy-include_if.md).  C16_excluded_row_not_evaluated
+   is the part that holds: the STRING "false". *)
+Theorem C16_falsy_include_if_row_is_evaluated_refuted : falsy_include_if_witness.
+Proof. exact falsy_include_if_witness_holds. Qed.
+Print Assumptions C16_falsy_include_if_row_is_evaluated_refuted.
